@@ -918,7 +918,9 @@ pub fn c14_oracle(plan: &Plan, rr: &RunResult, o: &mut Outcome) {
     // Under an injected entropy fault scalars may legitimately coincide (a zero blinding factor
     // is the customer's own entropy failing, not a protocol leak); what must still hold is that
     // no *signature element* shown by the customer repeats one the merchant has seen.
-    let faulty_entropy = !plan.entropy.is_empty();
+    // (A source that REPORTS failure is different: the party aborts and retries, or - if the call
+    // returns anyway - what it sends is judged in full.)
+    let faulty_entropy = plan.entropy.iter().any(|e| e.kind != "fail");
     let lens_all = [32usize, 48, 96];
     let lens_groups = [48usize, 96];
     let lens: &[usize] = if faulty_entropy { &lens_groups } else { &lens_all };
@@ -1093,6 +1095,15 @@ pub fn c14_oracle(plan: &Plan, rr: &RunResult, o: &mut Outcome) {
                         Some(z) => z,
                         None => continue,
                     };
+                    // a blinding factor is never zero under a working entropy source (a commitment
+                    // blinded by zero hides nothing)
+                    if class.starts_with("bf-") && mval == Scalar::zero() {
+                        o.violate(
+                            "blinding-factor-is-zero",
+                            &format!("{}:{}", kind_site, strip_idx(&zpath)),
+                            format!("channel {} payment {}: the blinding factor behind {} is zero although no draw of the customer's generator returned zero", ev.chan, ev.pay, zpath),
+                        );
+                    }
                     let mask = refc::scb(&(z - c * mval)).to_vec();
                     if mask[..] == *t.atom_bytes(zi) {
                         // hidden value 0: the response is the mask and by itself discloses nothing;
@@ -1267,8 +1278,26 @@ impl Prop for C14 {
         "exploration"
     }
     fn cases(&self, tier: Tier, seed: u64) -> CaseSet {
+        let mut en: Vec<Value> = (0..(if tier == Tier::Quick { 4u64 } else { 100 })).map(|k| json!({"f": "freshness", "seed": mix(&[seed, 0xC14F, k])})).collect();
+        // the customer's entropy source REPORTS failure at one draw of Ready::start (every scalar
+        // draw in thorough, every fourth in quick): the customer aborts and retries, or sends
+        // something that must stand on its own
+        let step = if tier == Tier::Quick { 4 } else { 1 };
+        for at in (0..92usize).step_by(step) {
+            let plan = Plan {
+                seed: mix(&[seed, 0xC14D, at as u64]),
+                merchants: vec!["9001".into()],
+                channels: vec![ChanPlan { merchant: 0, cust_bal: 50, merch_bal: 5, est_cs_faults: vec![], est_pt_faults: vec![], payments: vec![PayPlan { amount: 3, cs_faults: vec![], lock_faults: vec![], pt_faults: vec![] }], stop_at: 1, stop_stage: "ready".into() }],
+                order: vec![0],
+                wire: false,
+                crash: "none".into(),
+                crash_steps: vec![],
+                entropy: vec![EntropyPlan { chan: 0, pay: 0, op: "start".into(), at, width: 1, kind: "fail".into() }],
+            };
+            en.push(case_of(&plan, json!({})));
+        }
         CaseSet {
-            enumerated: (0..(if tier == Tier::Quick { 4u64 } else { 100 })).map(|k| json!({"f": "freshness", "seed": mix(&[seed, 0xC14F, k])})).collect(),
+            enumerated: en,
             random: match tier {
                 Tier::Quick => 300,
                 Tier::Thorough => 30_000,
@@ -1307,7 +1336,7 @@ impl Prop for C14 {
         let plan = plan_of(case);
         let rr = run_plan(&plan, &mut o);
         c14_oracle(&plan, &rr, &mut o);
-        keep(&mut o, &["state-not-fresh", "mask-of-hidden-value-is-a-secret", "mask-shared-between-hidden-values", "mask-of-hidden-value-too-short", "mask-of-hidden-value-revealed", "value-reuse", "secret-in-message", "hidden-balance-in-message", "nonce-not-fresh", "revocation-lock-not-fresh", "channel-id-not-fresh", "panic"]);
+        keep(&mut o, &["blinding-factor-is-zero", "state-not-fresh", "mask-of-hidden-value-is-a-secret", "mask-shared-between-hidden-values", "mask-of-hidden-value-too-short", "mask-of-hidden-value-revealed", "value-reuse", "secret-in-message", "hidden-balance-in-message", "nonce-not-fresh", "revocation-lock-not-fresh", "channel-id-not-fresh", "panic"]);
         o.nontrivial = o.stats.get("probe.customer_messages_checked").cloned().unwrap_or(0) >= 3;
         o
     }
@@ -1375,7 +1404,7 @@ impl Prop for C20 {
         let (n_new, n_start) = if tier == Tier::Quick { (12usize, 6usize) } else { (12, 30) };
         for (op, n) in [("new", n_new), ("start", n_start)] {
             for at in 0..n {
-                for (kind, width) in [("zeros", 1usize), ("zeros", 2), ("repeat", 1), ("closetag", 1)] {
+                for (kind, width) in [("zeros", 1usize), ("zeros", 2), ("repeat", 1), ("closetag", 1), ("longindex", 1)] {
                     if tier == Tier::Quick && op == "start" && kind == "closetag" {
                         continue;
                     }
